@@ -32,6 +32,8 @@ class AVal:
     lo: float
     hi: float
     isint: bool = False
+    extra: tuple = ()      # further relations ((var, lo, hi), ...): value - var in [lo, hi]
+    tag: tuple = ()        # client annotation (provenance of the value)
 
     @staticmethod
     def top(isint: bool = False) -> 'AVal':
@@ -50,6 +52,7 @@ class Zone:
         self.defs: dict[str, frozenset] = {}  # reaching definitions per variable
         self.aux: dict[str, Any] = {}       # client snapshots (kept when equal on join)
         self.bottom = False
+        self.dirty = True                   # constraints added since the last closure
 
     # ---- basic ---------------------------------------------------------
     def copy(self) -> 'Zone':
@@ -60,6 +63,7 @@ class Zone:
         z.defs = dict(self.defs)
         z.aux = dict(self.aux)
         z.bottom = self.bottom
+        z.dirty = self.dirty
         return z
 
     def vars(self) -> set[str]:
@@ -80,8 +84,12 @@ class Zone:
         old = self.m.get((a, b), INF)
         if c < old:
             self.m[(a, b)] = c
+            self.dirty = True
 
     def close(self) -> bool:
+        if not self.dirty:
+            return not self.bottom
+        self.dirty = False
         vs = sorted(self.vars())
         m = self.m
         for k in vs:
@@ -407,6 +415,7 @@ class ZoneDomain(Domain):
                     s.m[(a, b)] = c + v.hi
                 elif b == x:
                     s.m[(a, b)] = c - v.lo
+            s.dirty = True
             if not v.isint:
                 s.ints.discard(x)
             return
